@@ -624,7 +624,7 @@ impl Duration {
                     self.years(),
                     self.months(),
                     self.weeks(),
-                    self.days().checked_add(&FiniteF64::from(balanced_days))?,
+                    self.days().checked_add(&FiniteF64::try_from(balanced_days)?)?,
                 )?;
                 // TODO: Should this be using AdjustDateDurationRecord?
 
@@ -733,7 +733,7 @@ impl Duration {
                     self.years(),
                     self.months(),
                     self.weeks(),
-                    self.days().checked_add(&FiniteF64::from(balanced_days))?,
+                    self.days().checked_add(&FiniteF64::try_from(balanced_days)?)?,
                 )?;
                 // e. Let targetDate be ? CalendarDateAdd(calendar, plainRelativeTo.[[ISODate]], dateDuration, constrain).
                 let target_date = plain_date.calendar().date_add(
